@@ -10,6 +10,14 @@ import dataclasses
 import typing as t
 
 
+class _Unknown:
+    def __repr__(self) -> str:
+        return "<unknown>"
+
+
+_UNKNOWN = _Unknown()
+
+
 def _show(val: t.Any) -> str:
     """Text of an offending value, for messages. Never raises (`str` of an int beyond the interpreter's digit limit does)."""
     try:
@@ -223,6 +231,8 @@ class ProductErrorNode(ErrorNode):
 class SumErrorNode(ErrorNode):
     children: t.List[ErrorNode]
     """Map containing the errors while parsing as each variant"""
+    actual: t.Any = dataclasses.field(default=_UNKNOWN, compare=False, repr=False)
+    """Actual value received (when known: otherwise the value the last variant complained about is shown)"""
 
     def print_error(self, indent: str = "", inside_sum: bool = False, file: t.TextIO = sys.stdout):
         def _flatten_sum(children: t.Iterable[ErrorNode]) -> t.Iterator[ErrorNode]:
@@ -238,6 +248,8 @@ class SumErrorNode(ErrorNode):
             print(f"{indent}- ", end="", file=file)
             child.print_error(f"{indent}  ", inside_sum=True, file=file)
             actual = getattr(child, 'actual', actual)
+        if self.actual is not _UNKNOWN:
+            actual = self.actual
         print(f"{indent}Instead got `{_show(actual)}` of type `{type(actual).__name__}`", file=file)
 
 
